@@ -201,17 +201,19 @@ CHAR_CLASSES = {
 
 def validator_class(facts, f, rule):
     """union of the character classes a TryFrom<&str> constructor lets through (position-insensitive)"""
-    sy = sym(f)
     m = 0
     found = False
-    for bb, t in f.calls():
-        cn = norm(t["callee"].get("res") or t["callee"].get("def") or "")
-        if cn in CHAR_CLASSES:
-            m |= CHAR_CLASSES[cn]
-            found = True
-        elif cn.startswith("core::char::methods::is_"):
-            rule.bad("%s/unknown-predicate" % norm(f.id), "unknown character predicate %s" % cn, f.loc(bb), kind="unmodelled-idiom")
-    for bi, b in enumerate(f.blocks):
+    # the predicate may sit in a closure of the constructor (`chars().find(|c| !valid(c))`, `all(..)`)
+    bodies = [f] + [g for i, g in facts.fns.items() if g.kind == "Closure" and i.startswith(f.id + "::{closure")]
+    for g in bodies:
+        for bb, t in g.calls():
+            cn = norm(t["callee"].get("res") or t["callee"].get("def") or "")
+            if cn in CHAR_CLASSES:
+                m |= CHAR_CLASSES[cn]
+                found = True
+            elif cn.startswith("core::char::methods::is_"):
+                rule.bad("%s/unknown-predicate" % norm(f.id), "unknown character predicate %s" % cn, g.loc(bb), kind="unmodelled-idiom")
+    for bi, b in ((bi, b) for g in bodies for bi, b in enumerate(g.blocks)):
         t = b["term"]
         if t["k"] == "switch" and t["ty"] == "char":
             for val, tgt in t["arms"]:
@@ -226,6 +228,108 @@ def validator_class(facts, f, rule):
                         m |= 1 << c["int"]
                         found = True
     return m if found else None
+
+
+# ---- validator / scanner automata (position-sensitive part of R2) -----------------------------------
+class _CharsAuto(scan.Behaviour):
+    """behaviour of a `for c in value.chars()` validator: nodes are the calls of Chars::next, named by the values of
+    the boolean flags of the frame at that moment (a `first` flag makes two nodes)"""
+    name = "validator"
+
+    def event(self, state, ev, where):
+        if ev[0] == "prim" and ev[1] == "next":
+            src, g = state
+            dst = "next[%s]" % ev[2]
+            self.transitions.add((src, g, dst))
+            return (dst, (True, A.ALL))
+        return scan.Behaviour.event(self, state, ev, where)
+
+
+def _prim_chars_next(eng, fn, bb, t, env, state, args, where, n):
+    flags = []
+    for l, v in sorted(env.items()):
+        if l >= 0 and v[0] == "b" and v[1] is not None and l in fn.vars:
+            flags.append("%s=%s" % (fn.vars[l], "T" if v[1] else "F"))
+    state = eng.auto.event(state, ("prim", "next", ",".join(flags)), where)
+    return [(A.enum(A.OPTION, [("None", None), ("Some", ("byte", A.ALL))], "look"), env, state)]
+
+
+def _prim_mem_take(eng, fn, bb, t, env, state, args, where, n):
+    a = args[0] if args else TOP
+    if a[0] == "ref":
+        cur = eng.read(env, a[1], a[2])
+        if cur[0] == "b" and cur[1] is not None:
+            env = eng.write(env, a[1], a[2], ("b", False, (), ()), narrow=True)
+            return [(("b", cur[1], (), ()), env, state)]
+    return [(TOP, eng.havoc(env, args), state)]
+
+
+_CharsAuto.extra_prims = {
+    "<core::str::iter::Chars as core::iter::traits::iterator::Iterator>::next": _prim_chars_next,
+    "core::mem::take": _prim_mem_take,
+}
+
+
+def validator_automaton(facts, f):
+    """{node: [(byte mask, next node | 'Ok' | 'Err', may_end)]} or None when the validator is not a loop over chars()
+    the interpreter can follow"""
+    auto = _CharsAuto()
+    eng = A.Engine(facts, auto)
+    saved = dict(A.MODELS)
+    for nme, m in A.U8_CLASSES.items():
+        A.MODELS["core::char::methods::<impl char>::" + nme] = A._u8_class(m)
+        A.MODELS["core::char::methods::" + nme] = A._u8_class(m)
+    try:
+        key = [k for k, n in facts.inst.items() if n["def"] == f.id and n.get("has_mir")]
+        if not key:
+            return None
+        res = eng.summary(key[0], auto.initial(), tuple(TOP for _ in range(f.argc)))
+    except (A.Recursion, A.Imprecise):
+        return None
+    finally:
+        A.MODELS.clear()
+        A.MODELS.update(saved)
+    for av, st in res:
+        names = set(n for n, _ in av[2]) if av[0] == "e" else set()
+        auto.transitions.add((st[0], st[1], "ret:" + ("Ok" if names == {"Ok"} else "Err" if names == {"Err"} else "?")))
+    nodes = {}
+    starts = sorted(set(dst for src, g, dst in auto.transitions if not src.startswith("next[") and dst.startswith("next[")))
+    for src, g, dst in auto.transitions:
+        if not src.startswith("next["):
+            continue
+        if g is None or dst.endswith("?"):
+            return None
+        nodes.setdefault(src, []).append((g[1], dst[4:] if dst.startswith("ret:") else dst, g[0]))
+    if not nodes or not starts:
+        return None
+    # only a deterministic result is believed: the classes leaving a node must be pairwise disjoint (an imprecise
+    # run -- e.g. through Iterator::find and its closure plumbing -- shows up as overlapping guards)
+    for outs in nodes.values():
+        acc = 0
+        for mask, dst, end in outs:
+            if mask & acc:
+                return None
+            acc |= mask
+    nodes["<start>"] = starts
+    return nodes
+
+
+def scanner_positions(facts, sf):
+    """(class consumed at the first position, class consumed at later positions) of a prefix scanner"""
+    auto = scan.Behaviour()
+    eng = A.Engine(facts, auto)
+    eng.summary(scan.root_key(facts, sf.id), auto.initial(), (TOP, ("i", 0)))
+    first = later = 0
+    for s0, g0, d0 in auto.transitions:
+        if s0.startswith("look@") and d0.startswith("look@") and g0 is not None:
+            a, b = s0[5:], d0[5:]
+            if a == b:
+                continue
+            if a == "0":
+                first |= g0[1]
+            else:
+                later |= g0[1]
+    return first, later
 
 
 def run_r2(ctx, rule):
@@ -247,6 +351,32 @@ def run_r2(ctx, rule):
                 if a.isdigit() and b.isdigit() and a == b:
                     continue
                 sm |= g0[1]
+        # position-sensitive: every string the validator lets through is consumed completely by the scanner
+        # (language inclusion over the product of the validator's flag states and the scanner's position)
+        va = validator_automaton(facts, fs[0])
+        if va is None:
+            rule.note("%s/automaton" % cname, "validator is not a chars() loop the interpreter follows: only the position-insensitive class comparison applies")
+        else:
+            c0, c1 = scanner_positions(facts, sf)
+            start = va.pop("<start>")
+            seen = set()
+            work = [(n, 0) for n in start]
+            bad = None
+            while work and bad is None:
+                node, pos = work.pop()
+                if (node, pos) in seen:
+                    continue
+                seen.add((node, pos))
+                for mask, dst, _end in va.get(node, []):
+                    if dst == "Err":
+                        continue
+                    allowed = c0 if pos == 0 else c1
+                    if mask & ~allowed:
+                        bad = "in validator state %s the characters %s are accepted at %s position, where the scanner stops" % (node, A.show_mask(mask & ~allowed), "the first" if pos == 0 else "a later")
+                        break
+                    if dst != "Ok":
+                        work.append((dst, 1))
+            rule.check(bad is None, "%s/language" % cname, "%s::try_from accepts only strings %s consumes completely (%d validator states)%s" % (cname, scanner, len(va), "" if bad is None else " -- " + bad), fs[0].loc())
         ok = vm is not None and vm == sm
         rule.check(ok, "%s/class" % cname, "%s::try_from accepts exactly the characters %s scans (validator %s, scanner %s)" % (cname, scanner, A.show_mask(vm) if vm is not None else "?", A.show_mask(sm)), fs[0].loc())
         # the tuple field is not public: values can only be made through the validating constructor
@@ -274,6 +404,18 @@ def upvar_field(facts, cfn, e, depth=0):
         return None
     if e[0] == "f" and not e[2].isdigit():
         return e[2]
+    if e[0] == "l" and cfn.kind != "Closure" and 1 <= e[1] <= cfn.argc and not cfn.j.get("pub"):
+        # a parameter of a private helper: the field every call site passes (all must agree)
+        nid = norm(cfn.id)
+        got = set()
+        for f in facts.fns.values():
+            if f.crate in ("ext", "promoted"):
+                continue
+            for bb, t in f.calls():
+                if norm(util.cname(t)) == nid and len(t["args"]) >= e[1]:
+                    got.add(upvar_field(facts, f, sym(f).operand(t["args"][e[1] - 1]), depth + 1))
+        if len(got) == 1:
+            return got.pop()
     return None
 
 
@@ -437,17 +579,43 @@ def run_r4b(ctx, rule):
     # completeness: when the bytes are handed to the writer nothing of the value is left over -- either the
     # remaining value is known to be zero, or the final group is the remaining value itself (then < 0x80, above)
     shifted = set()
+    shift_blocks = {}
     for bi, b in enumerate(wf.blocks):
         for s in b["stmts"]:
             if s["k"] == "assign" and not s["lhs"]["p"] and s["rv"]["k"] == "bin" and s["rv"]["op"].replace("Unchecked", "") == "Shr":
                 shifted.add(s["lhs"]["l"])
+                shift_blocks.setdefault(s["lhs"]["l"], set()).add(bi)
     outs = [bb for bb, t in wf.calls() if norm(util.cname(t)).endswith("DeferredWriter::write_all_defer_err")]
     c = cfg(wf)
     for bb in outs:
         how = None
         for l in shifted:
             g = guards.holds(wf, bb, lambda fa: fa[0] == "cmp" and fa[1] == "Eq" and fa[2] == ("l", l) and fa[3] == ("c", 0))
-            if g:
+            if not g:
+                # the exit test through a flag (`more = code != 0; while more {..}`): on the exit edge the flag can only
+                # come from a definition that compares the remaining value with zero, made after the shift
+                def flag_fact(fa):
+                    if fa[0] != "bool" or fa[1][0] != "l":
+                        return False
+                    informative = 0
+                    for d in sy.defs.get(fa[1][1], []):
+                        if d[0] != "stmt":
+                            return False
+                        e = sy.rvalue(d[3], 1)
+                        if e[0] == "c":
+                            if bool(e[1]) == fa[2]:
+                                return False  # a constant definition could take this edge: nothing known
+                            continue
+                        zero = e[0] == "bin" and e[2] == ("l", l) and e[3] == ("c", 0) and ((e[1] == "Ne" and fa[2] is False) or (e[1] == "Eq" and fa[2] is True))
+                        after_shift = any(c.dominates(sb, d[1]) for sb in shift_blocks.get(l, ()))
+                        if not (zero and after_shift):
+                            return False
+                        informative += 1
+                    return informative > 0
+                g = guards.holds(wf, bb, flag_fact)
+                if g:
+                    how = "remaining value == 0 on exit (through the loop flag %s)" % guards.show_fact(wf, g[1])
+            elif g:
                 # the guard still describes `l` at bb: no assignment to l in a block strictly between (dominated by the guard, reaching bb)
                 redefs = [d[1] for d in sy.defs.get(l, []) if d[1] != g[0] and c.dominates(g[0], d[1]) and c.dominates(d[1], bb)]
                 if not redefs:
@@ -471,6 +639,12 @@ def run_r4b(ctx, rule):
                         v = ceval(x)
                         if v is not None:
                             out.add(v)
+                        elif x[0] == "bin" and x[1] in ("Mul", "MulUnchecked"):
+                            # `<< (7 * i)`: the i-th group has weight 7 bits per group, the same protocol
+                            for y in (x[2], x[3]):
+                                w = ceval(y)
+                                if w is not None:
+                                    out.add(w)
         # operator traits on references (`&u8 & 0x7f`) are calls
         for bb, t in f.calls():
             cn = norm(util.cname(t))
@@ -594,6 +768,16 @@ def run_r6(ctx, rule):
                         has_lt2 = True
                     if e[1] == "Eq" and e[2][0] != "c" and e[3][0] != "c" and any(mentions(x, lambda y: y[0] == "call" and norm(y[2]) == "flussab_aiger::token::lit") or x[0] == "l" for x in (e[2], e[3])):
                         has_eq_state = True
+        for bi, b in enumerate(rf.blocks):
+            t = b["term"]
+            if not b["cleanup"] and t["k"] == "switch" and t["ty"] != "bool" and sy.operand(t["discr"])[0] != "discr":
+                if {0, 1} <= set(v for v, _ in t["arms"]):
+                    has_lt2 = True  # `match code { 0 => .., 1 => .., .. }`
+            for s in b["stmts"]:
+                if s["k"] == "assign" and s["rv"]["k"] == "bin":
+                    e = sy.rvalue(s["rv"])
+                    if (e[1] == "Le" and e[3] == ("c", 1)) or (e[1] == "Ge" and e[2] == ("c", 1)) or (e[1] == "Gt" and e[2] == ("c", 2)):
+                        has_lt2 = True
         rule.check(has_lt2 and has_eq_state, "%s/latch-reader-forms" % mod, "%s: the reader distinguishes 0/1 (< 2) and the latch's own literal" % mod, rf.loc())
 
 
